@@ -395,7 +395,7 @@ def run_chunk(pid, chunk, res):
             found.append((kind, where, '%s [live state: %s (provenance %s) after %s]' % (detail, hist[0], prov or 'api', hist[1:])))
         try:
             livepool.read_other()
-            with quiet():
+            with livepool.short_watchdog(10.0), quiet():
                 mt = extract(t)
                 oracle(t, mt, flags, bad)
         except Exception as e:
@@ -403,6 +403,10 @@ def run_chunk(pid, chunk, res):
         res.outcome((hist[0], tuple(hist[1:]), len(found)))
         for kind, where, detail in found[:3]:
             res.violation(kind, where, case, detail, '%s in a non-initial state: %s' % (where, kind))
+    if counts and counts.get('aborted'):
+        # steps of the tool did not terminate while the pool was built: this part of the pool is incomplete
+        res.capped = True
+        res.add_extra('live_pool_aborted_after_timeouts', 1)
     if counts:
         res.add_extra('live_states', counts['states'])
         res.add_extra('live_transitions', counts['transitions'])
